@@ -361,6 +361,15 @@ def make_image(cfg):
         else:
             span = int(np.iinfo(dt).max) - int(np.iinfo(dt).min) + 1
             v = ((v % span) + int(np.iinfo(dt).min)).astype(dt)
+        if cfg.get("flat_tiles"):
+            # whole blocks of one value: genuine zeros, and pixels equal to the nodata value (aligned to the block grid)
+            t = cfg["flat_tiles"]
+            nd = cfg.get("nodata_kw") if cfg.get("nodata_kw") is not None else cfg.get("nodata_attr")
+            v = v.copy()
+            v[0:t, 0:t] = 0
+            v[t:2 * t, t:3 * t] = 0
+            if nd is not None:
+                v[0:t, 2 * t:3 * t] = dt.type(nd)
         planes.append(v)
     yx = tuple(g.dimensions)
     if lay == "YX":
@@ -509,8 +518,8 @@ def roundtrip_pass(cfg, xx, g, bands, want_tr, ref_crs, kw, ext):
             r = read_ds(f)
         if r["count"] != bands.shape[0] or r["shape"] != (H, W) or r["dtype"] != cfg["dtype"]:
             msgs.append(f"read back count/shape/dtype {r['count']} {r['shape']} {r['dtype']}")
-        elif not np.array_equal(r["pix"], bands):
-            bad = np.argwhere(r["pix"] != bands)[0].tolist()
+        elif not np.array_equal(r["pix"], bands, equal_nan=bands.dtype.kind == "f"):
+            bad = np.argwhere(~((r["pix"] == bands) | ((r["pix"] != r["pix"]) & (bands != bands))))[0].tolist()
             msgs.append(f"band {bad[0] + 1} row {bad[1]} col {bad[2]}: read {r['pix'][tuple(bad)]!r}, wrote {bands[tuple(bad)]!r}")
         if cfg.get("transform") is not None:
             # small pixels: judge by how far the image corners move, in pixels of the input grid
@@ -694,6 +703,15 @@ def roundtrip_configs(tier):
                       {"gdal_env": {"GDAL_DISABLE_READDIR_ON_OPEN": "TRUE"}},
                       {"gdal_env": {"GDAL_CACHEMAX": 1, "GDAL_NUM_THREADS": 2, "CPL_VSIL_CURL_ALLOWED_EXTENSIONS": ".tif"}},
                       {"os_env": {"GDAL_NUM_THREADS": "ALL_CPUS", "VSI_CACHE": "TRUE", "GDAL_TIFF_OVR_BLOCKSIZE": "256"}}]],
+        # whole blocks of zeros (and of the nodata value) with a non-zero / NaN nodata, windowed writes on and off
+        *[dict(base, H=48, W=64, blocksize=16, flat_tiles=16, **nd, **opt)
+          for nd in [{"nodata_attr": -999}, {"nodata_kw": 255, "dtype": "uint8"}, {"nodata_attr": float("nan"), "dtype": "float32"},
+                     {"nodata_attr": 7, "nodata_kw": -1, "layout": "BYX", "B": 2}]
+          for opt in [{"use_windowed_writes": True}, {}, {"use_windowed_writes": True, "overview_levels": [2]},
+                      {"use_windowed_writes": True, "dest": "file", "intermediate_compression": True, "overview_levels": [2, 4]}]],
+        dict(base, H=48, W=64, blocksize=16, flat_tiles=16, use_windowed_writes=True),                 # no nodata at all
+        dict(base, H=64, W=96, blocksize=32, flat_tiles=32, use_windowed_writes=True, nodata_attr=-999, external_overviews=[2]),
+        dict(base, H=48, W=64, blocksize=16, flat_tiles=16, use_windowed_writes=True, nodata_attr=-999, layout="YXB", B=3, dtype="float64"),
         # one-row / one-column / one-pixel images on rotated grids (pixel-space labels, single label per axis)
         dict(base, H=1, W=30, rotated=True), dict(base, H=30, W=1, rotated=True, dest="file"), dict(base, H=1, W=1, rotated=True),
         dict(base, H=1, W=12, rotated=True, layout="BYX", B=2), dict(base, H=1, W=9, rotated=True, layout="YXB", B=3, overview_levels=[]),
@@ -820,6 +838,10 @@ def roundtrip_configs(tier):
             c["nodata_attr"] = rng.choice([0, 1, 100])
         if rng.random() < 0.2:
             c["nodata_kw"] = rng.choice([0, 5])
+        if rng.random() < 0.2 and min(c["H"], c["W"]) >= 32 and "derive" not in c:
+            c.update(flat_tiles=16, blocksize=16, use_windowed_writes=rng.random() < 0.7)
+            if c.get("nodata_attr") is None and rng.random() < 0.8:
+                c["nodata_attr"] = float("nan") if (np.dtype(c["dtype"]).kind == "f" and rng.random() < 0.5) else 100
         if rng.random() < 0.35:
             c["use_windowed_writes"] = True
             if rng.random() < 0.6:
